@@ -51,6 +51,15 @@ func (v *FV) resolveCallee(fr *Frame, cc *ssa.CallCommon) (*Contract, *ssa.Funct
 		return nil, f.Fn.(*ssa.Function)
 	case *ssa.UnOp:
 		// call through a package-level function variable (test seam): contract on the variable
+		if fa, ok := f.X.(*ssa.FieldAddr); ok {
+			stT := fa.X.Type().Underlying().(*types.Pointer).Elem()
+			key := typeKey(stT) + "." + stT.Underlying().(*types.Struct).Field(fa.Field).Name()
+			if c, ok := db.Contracts[key]; ok {
+				v.trusted["function-valued field "+shortKey(key)+" is assumed to satisfy its declared contract"] = true
+				fr.fieldFnOwner[cc.Value] = fa.X
+				return c, nil
+			}
+		}
 		if g, ok := f.X.(*ssa.Global); ok && g.Pkg != nil {
 			if c, ok := db.Contracts[g.Pkg.Pkg.Path()+"."+g.Name()]; ok {
 				v.trusted["function variable "+shortKey(g.Pkg.Pkg.Path())+"."+g.Name()+" is assumed to satisfy its declared contract"] = true
@@ -631,6 +640,13 @@ func (v *FV) freshResults(st *State, rt *types.Tuple, prefix string) []TV {
 
 // doCall performs a call in state st and returns result values.
 func (v *FV) doCall(fr *Frame, st *State, cc *ssa.CallCommon, recvTV TV, args []TV, pos string) []TV {
+	before := v.sharedInterference(fr, st, pos)
+	res := v.doCall2(fr, st, cc, recvTV, args, pos)
+	v.sharedAfterStep(fr, st, before, pos, v.calleeName(cc, nil))
+	return res
+}
+
+func (v *FV) doCall2(fr *Frame, st *State, cc *ssa.CallCommon, recvTV TV, args []TV, pos string) []TV {
 	rt := cc.Signature().Results()
 	if lk := v.lockCall(cc); lk != "" {
 		v.execLock(fr, st, cc, lk, pos)
@@ -754,7 +770,7 @@ func (v *FV) inline(fr *Frame, st *State, callee *ssa.Function, args []TV, bindi
 
 func (v *FV) newFrame(fn *ssa.Function, depth int) *Frame {
 	v.ctr++
-	return &Frame{fn: fn, vals: map[ssa.Value]TV{}, tuples: map[ssa.Value][]TV{}, locs: map[ssa.Value]*Loc{}, closures: map[ssa.Value]*closureInfo{}, depth: depth,
+	return &Frame{fieldFnOwner: map[ssa.Value]ssa.Value{}, fn: fn, vals: map[ssa.Value]TV{}, tuples: map[ssa.Value][]TV{}, locs: map[ssa.Value]*Loc{}, closures: map[ssa.Value]*closureInfo{}, depth: depth,
 		prefix: fmt.Sprintf("f%d_", v.ctr), params: map[string]TV{}}
 }
 
@@ -770,6 +786,11 @@ func (v *FV) contractVars(con *Contract, callee *ssa.Function, cc *ssa.CallCommo
 		pkg = p
 	}
 	ai := 0
+	if v.curFrame != nil {
+		if owner, ok := v.curFrame.fieldFnOwner[cc.Value]; ok {
+			vars["self"] = v.val(v.curFrame, owner)
+		}
+	}
 	if cc.IsInvoke() {
 		vars["self"] = TV{T: recvTV.T, Ty: cc.Value.Type(), Sort: "Int"}
 		if pkg == nil && cc.Method.Pkg() != nil {
@@ -824,6 +845,7 @@ func bindResultNames(vars map[string]TV, sig *types.Signature, results []TV) {
 }
 
 func (v *FV) applyContract(fr *Frame, st *State, con *Contract, callee *ssa.Function, cc *ssa.CallCommon, recvTV TV, args []TV, pos string) []TV {
+	v.curFrame = fr
 	sig := cc.Signature()
 	name := con.Key
 	if con.Extern || con.Trusted {
@@ -1264,4 +1286,76 @@ func acquiresLock(fn *ssa.Function, field string, depth int) bool {
 		}
 	}
 	return false
+}
+
+// ---------- shared state (rely/guarantee at call granularity)
+
+func (v *FV) sharedDecl() (*SharedDecl, TV, bool) {
+	if v.top == nil || v.top.Signature.Recv() == nil || len(v.top.Params) == 0 || v.topFrame == nil {
+		return nil, TV{}, false
+	}
+	sd := v.eng.db.Shared[typeKey(v.top.Signature.Recv().Type())]
+	if sd == nil {
+		return nil, TV{}, false
+	}
+	return sd, v.topFrame.vals[v.top.Params[0]], true
+}
+
+func (v *FV) sharedEnv(sd *SharedDecl, self TV, snap, old *Snapshot, reach Term) *ExprEnv {
+	return &ExprEnv{v: v, vars: map[string]TV{"self": self}, snap: snap, old: old, pkg: v.pkgOf(sd.Pkg), reach: reach, what: "shared " + sd.Owner}
+}
+
+// sharedInterference: other threads may have run: the shared locations get arbitrary values
+// related to the current ones by the rely, and the invariant holds. Returns the state
+// after the havoc (the pre-state of our next step).
+func (v *FV) sharedInterference(fr *Frame, st *State, pos string) *Snapshot {
+	sd, self, ok := v.sharedDecl()
+	if !ok || v.quiet > 0 || (v.con != nil && v.con.Unshared) {
+		return nil
+	}
+	prev := st.snap.clone()
+	env := v.sharedEnv(sd, self, prev, nil, st.reach)
+	for _, l := range sd.Locations {
+		if _, err := v.locWrite(env, st, "self."+l, ""); err != nil {
+			v.specError(Clause{File: sd.File, Line: sd.Line, Text: "locations " + l}, err)
+		}
+	}
+	env2 := v.sharedEnv(sd, self, st.snap, prev, st.reach)
+	if sd.Rely != "" {
+		if t, err := env2.EvalBool(sd.Rely); err == nil {
+			v.assume(st.reach, t)
+		} else {
+			v.specError(Clause{File: sd.File, Line: sd.Line, Text: sd.Rely}, err)
+		}
+	}
+	if sd.Invariant != "" {
+		if t, err := env2.EvalBool(sd.Invariant); err == nil {
+			v.assume(st.reach, t)
+		} else {
+			v.specError(Clause{File: sd.File, Line: sd.Line, Text: sd.Invariant}, err)
+		}
+	}
+	return st.snap.clone()
+}
+
+// sharedAfterStep: our own step must keep the invariant and respect the rely of the others.
+func (v *FV) sharedAfterStep(fr *Frame, st *State, before *Snapshot, pos, what string) {
+	if before == nil {
+		return
+	}
+	sd, self, ok := v.sharedDecl()
+	if !ok {
+		return
+	}
+	env := v.sharedEnv(sd, self, st.snap, before, st.reach)
+	if sd.Invariant != "" {
+		if t, err := env.EvalBool(sd.Invariant); err == nil {
+			v.oblige("shared.inv", "", pos, "shared-state invariant after the step "+shortKey(what)+": "+sd.Invariant, st.reach, t)
+		}
+	}
+	if sd.Rely != "" {
+		if t, err := env.EvalBool(sd.Rely); err == nil {
+			v.oblige("guar", "", pos, "the step "+shortKey(what)+" respects what other threads rely on: "+sd.Rely, st.reach, t)
+		}
+	}
 }
